@@ -412,7 +412,10 @@ theorem uws_none (L : Location) (pl : PKey) (b : Blk) (sb : Strand) (pb : PKey)
     · simp [locStrand, hs]; rfl
 
 theorem wf_of_wfLocation (r : Location) (h : wfLocation r = true) : WF r := by
-  cases r <;> simpa [wfLocation, WF] using h
+  cases r with
+  | single _ _ => simpa [wfLocation, WF] using h
+  | compound _ => simpa [wfLocation, WF] using h
+  | empty => trivial
 
 theorem withPar_of_ne (r : Location) (p : PKey) (h : r ≠ .empty) : withPar r p = (r, p) := by
   cases r <;> first | rfl | exact absurd rfl h
@@ -791,5 +794,59 @@ theorem unionP_disjoint (a b : PLoc) (ha : WFP a) (hb : WFP b) (hj : ¬ OneSided
       simp only [Bool.and_eq_true] at h
       exact h5 h.1 h.2
     · rfl
+
+example : WFP ((.compound ⟨[(0, 3), (1, 1), (2, 5)], .plus⟩), [(some "chrA", none, some ['A','C','G','T','A'])]) := by
+  decide
+
+/-- merge_overlapping: unchanged when nothing overlaps, otherwise the same covered set without overlaps -/
+theorem mergeOverlappingP_ok (a : PLoc) (ha : WFP a) : okMergeOverlapping a (ans (mergeOverlappingP a)) = true := by
+  obtain ⟨A, pa⟩ := a
+  cases A with
+  | empty => simp [mergeOverlappingP, okMergeOverlapping, nonOverlapLoc, locationBlocks, nonOverlap]
+  | single x sa => simp [mergeOverlappingP, okMergeOverlapping, nonOverlapLoc, locationBlocks, nonOverlap]
+  | compound la =>
+    by_cases hno : nonOverlap la.blocks = true
+    · simp [mergeOverlappingP, okMergeOverlapping, nonOverlapLoc, locationBlocks, hno]
+    · have hc : la.Canon := ha.1
+      have hva : ∀ x ∈ la.blocks, x.1 ≤ x.2 := (blocksValid_iff _).mp hc.2.1
+      have hmem : ∀ x ∈ la.blocks.map (fun x => (x, pa)), x.1 ∈ la.blocks ∧ x.2 = pa := by
+        intro x hx
+        simp only [List.mem_map] at hx
+        obtain ⟨y, hy, rfl⟩ := hx
+        exact ⟨hy, rfl⟩
+      obtain ⟨r, p0, hr, ⟨x0, hx0, hp0⟩, h1, h2, h3, h4, h5, h6⟩ :=
+        Union.mergeBlocks_spec (la.blocks.map (fun x => (x, pa))) la.strand (by simpa using hc.1)
+          (fun x hx => hva _ (hmem x hx).1)
+          (fun x hx y hy => by rw [(hmem x hx).2, (hmem y hy).2]; exact sameParent_refl _)
+      have hp0' : p0 = pa := by rw [← hp0]; exact (hmem x0 hx0).2
+      subst hp0'
+      have hmap : (la.blocks.map (fun x => (x, p0))).map (·.1) = la.blocks := by
+        simp [List.map_map, Function.comp_def]
+      rw [hmap] at h5 h6
+      have hm : mergeOverlappingP (.compound la, p0) = .ok (r, p0) := by
+        simp only [mergeOverlappingP, hno, Bool.false_eq_true, if_false]
+        exact hr
+      rw [hm, ans_ok]
+      simp only [okMergeOverlapping, nonOverlapLoc, locationBlocks, hno, Bool.false_eq_true, if_false,
+        Bool.and_eq_true]
+      refine ⟨⟨⟨⟨?_, ?_⟩, ?_⟩, h4⟩, ?_⟩
+      · rw [← Union.withPar_of_ne r p0 (Union.good_ne_empty r h3)]
+        apply resultOk_withPar r p0 p0 h1 _ (sameParent_refl _)
+        intro n hn x hx
+        have := h6 x hx
+        have h7 := (maxEndOf_le_iff _ n).mpr (ha.2.2 n hn)
+        simp only [locationBlocks] at h7
+        omega
+      · simp only [endsWithin, List.all_eq_true, decide_eq_true_eq]
+        intro x hx
+        rw [hiOf_one]
+        exact h6 x hx
+      · rw [allUpTo_iff]
+        intro p _
+        show (locationCovers r p == locationCovers (.compound la) p) = true
+        rw [h5]
+        simp [locationCovers, covers]
+      · show strandIs r (some la.strand) = true
+        simp [strandIs, h2]
 
 end BioCantor.Proofs
